@@ -97,13 +97,26 @@ def parseVal1 (ts : List String) : Value × List String :=
     | (none, rest') => (.unknown, rest')
   | _ => parseAtom ts
 
-def parseVal (ts : List String) : Value :=
+def parseValRaw (ts : List String) : Value :=
   match ts with
   | "X" :: rest =>
     let (a, rest') := parseVal1 rest
     let (b, _) := parseVal1 rest'
     .prod a b
   | _ => (parseVal1 ts).1
+
+/-- a corrupted object may print a nonsensical space dimension (e.g. the poison pattern of a freed
+    block): such a description is no value at all -/
+def saneDims : Value → Bool
+  | .poly n _ => n ≤ 64
+  | .grid n _ => n ≤ 64
+  | .pset n _ => n ≤ 64
+  | .prod a b => saneDims a && saneDims b
+  | _ => true
+
+def parseVal (ts : List String) : Value :=
+  let v := parseValRaw ts
+  if saneDims v then v else .unknown
 
 def parseObs (ts : List String) : Obs := ⟨ts, parseVal ts⟩
 
